@@ -412,6 +412,37 @@ func shapeOf(x interface{}) string {
 func runC14(c *fw.Ctx) {
 	files := corpus.Sample(c.Rand("files"), c.Pick(120, 3000))
 	densities := []uint32{0, 3, 10, 30, 60}
+	// the construct snippets (rare node kinds in rare places: type literals as list elements, range
+	// statements with odd keys, ...) under many scripts each
+	snips := layoutZoo()
+	var skeys []string
+	for k := range snips {
+		skeys = append(skeys, k)
+	}
+	sort.Strings(skeys)
+	for si, k := range skeys {
+		if !c.Mine(si) {
+			continue
+		}
+		src := snips[k]
+		for sc := 0; sc < c.Pick(12, 80); sc++ {
+			id := fmt.Sprintf("snippet:%s/script%d", k, sc)
+			c.Case(id, func() {
+				fset := token.NewFileSet()
+				af, err := parser.ParseFile(fset, k+".go", src, 0)
+				if err != nil {
+					return
+				}
+				d := decorator.NewDecorator(fset)
+				df, err := d.DecorateFile(af)
+				if err != nil {
+					return
+				}
+				seed := uint32(c.Seed)*2741 + uint32(sc)*7919 + uint32(si)*31
+				c14Run(c, id, df, af, d, seed, densities[1+sc%4], src)
+			})
+		}
+	}
 	for i, p := range files {
 		if !c.Mine(i) {
 			continue
